@@ -94,8 +94,20 @@ def _cb_instruction(code, offset):
     return None
 
 
+_line_filter = None
+
+
+def set_line_filter(fn) -> None:
+    """Optional per-code-object filter (must depend on the code object only, so
+    the enabled set is the same in every run and replay)."""
+    global _line_filter
+    _line_filter = fn
+
+
 def _cb_line(code, line):
     if not _relevant(code.co_filename):
+        return mon.DISABLE
+    if _line_filter is not None and not _line_filter(code):
         return mon.DISABLE
     st = getattr(_tls, "st", None)
     if st is None:
